@@ -7,7 +7,7 @@
 From Verif.Base Require Import Prelude SseVocab.
 From Verif.Spec Require Import C12.
 From Verif.Model Require Import SseLegacy.
-From Verif.Proofs Require Import SseLegacy.
+From Verif.Proofs Require Import SseLegacy C12Spec.
 Open Scope Z_scope.
 
 (** Entering yields [Live u] only with a non-empty URL the server announced on
@@ -129,6 +129,16 @@ Proof.
   exact head_nospace_not_recognised. exact head_cancel_during_enter_leaks. exact head_exit_after_stream_end_hangs.
 Qed.
 Print Assumptions C12_head_witnesses.
+
+(** The extracted checkers applied to the implementation's observations decide
+    the declarative specification. *)
+Theorem C12_spec_checkers_reflect :
+  (forall timeout ann obs, enter_ok timeout ann obs = true <-> Spec_enter timeout ann obs) /\
+  (forall rid d, terminal_ok rid d = true <-> Spec_one_terminal rid d) /\
+  (forall sent delivered, order_ok sent delivered = true <-> Spec_in_order_once sent delivered) /\
+  (forall l, released_ok l = true <-> Spec_released l).
+Proof. split; [|split; [|split]]. exact enter_ok_spec. exact terminal_ok_spec. exact order_ok_spec. exact released_ok_spec. Qed.
+Print Assumptions C12_spec_checkers_reflect.
 
 (** Non-vacuity: concrete non-trivial values meet the hypotheses. *)
 Example C12_nonvacuous :
